@@ -34,6 +34,14 @@ type RecStorage struct {
 	Stores, FailStoreAt       int
 	// FailFired: an injected Generate / Remove / Store / positional Retrieve failure was delivered.
 	FailFired bool
+	// HideLargeValues makes the storage answer ABSENT (found=false, err=nil; RetrieveIfLoaded: nil) for every
+	// large-value slab (*atree.StorableSlab) while the container slabs that refer to them stay readable: the
+	// view of a storage from which a referenced slab has disappeared.  Hidden lists the slabs asked for.
+	HideLargeValues bool
+	Hidden          []atree.SlabID
+	// FailHits counts the injected Retrieve failures that fired.
+	FailHits   int
+	LastFailID atree.SlabID
 }
 
 var _ atree.SlabStorage = &RecStorage{}
@@ -85,12 +93,27 @@ func (r *RecStorage) Retrieve(id atree.SlabID) (atree.Slab, bool, error) {
 	r.Retrieves++
 	if r.FailRetrieve[id] || (r.FailRetrieveAt != 0 && r.Retrieves == r.FailRetrieveAt) {
 		r.FailFired, r.EffsAtFail = true, len(r.Effs)
+		r.FailHits++
+		r.LastFailID = id
 		return nil, false, ErrInjected
 	}
-	return r.Inner.Retrieve(id)
+	s, ok, err := r.Inner.Retrieve(id)
+	if r.HideLargeValues && ok && err == nil {
+		if _, is := s.(*atree.StorableSlab); is {
+			r.Hidden = append(r.Hidden, id)
+			return nil, false, nil
+		}
+	}
+	return s, ok, err
 }
 func (r *RecStorage) RetrieveIfLoaded(id atree.SlabID) atree.Slab {
-	return r.Inner.RetrieveIfLoaded(id)
+	s := r.Inner.RetrieveIfLoaded(id)
+	if r.HideLargeValues {
+		if _, is := s.(*atree.StorableSlab); is {
+			return nil
+		}
+	}
+	return s
 }
 func (r *RecStorage) Count() int                                { return r.Inner.Count() }
 func (r *RecStorage) SlabIterator() (atree.SlabIterator, error) { return r.Inner.SlabIterator() }
